@@ -34,6 +34,36 @@ def _stride_of_assign(u, stmt, cur_id, size_ids=(), size_call=None, base=16):
     return out
 
 
+def _string_source(u, e):
+    """the string a copy call reads: a literal, or a const char array initialised with one"""
+    lit = A.string_literal(e)
+    if lit is not None:
+        return lit
+    e0 = A.strip_casts(e)
+    if e0.get("kind") == "DeclRefExpr":
+        d = u.by_id.get((e0.get("referencedDecl") or {}).get("id"))
+        if d is not None and d.get("kind") == "VarDecl" and "const" in A.stype(d).split() and A.kids(d):
+            return A.string_literal(A.kids(d)[-1])
+    return None
+
+
+def _const_value(u, e):
+    v = A.int_literal(e)
+    if v is not None:
+        return v
+    e0 = A.strip_casts(e)
+    if e0.get("kind") == "UnaryExprOrTypeTraitExpr" and e0.get("name") == "sizeof" and A.kids(e0):
+        import re as _re
+        m = _re.search(r'\[(\d+)\]\s*$', A.qtype(A.strip(A.kids(e0)[0])) or "")
+        if m and "char" in A.qtype(A.strip(A.kids(e0)[0])):
+            return int(m.group(1))
+    try:
+        r = FD.Eval().ev(e)
+        return r if isinstance(r, int) else None
+    except FD.Unknown:
+        return None
+
+
 def run(ctx):
     u = ctx.ast("rtosc.c")
     us = ctx.ast("subtree-serialize.cpp")
@@ -138,7 +168,7 @@ def run(ctx):
 
     # ---- R08.4
     fn = u.function("rtosc_bundle")
-    lits = [A.string_literal(a) for c in A.calls_in(u.body(fn)) if A.callee_name(c) in ("strcpy", "memcpy", "strncpy") for a in A.kids(c)[1:] if A.string_literal(a) is not None]
+    lits = [_string_source(u, a) for c in A.calls_in(u.body(fn)) if A.callee_name(c) in ("strcpy", "memcpy", "strncpy") for a in A.kids(c)[2:3] if _string_source(u, a) is not None]
     ctx.require(lits, "R08.4: rtosc_bundle writes no string literal")
     ctx.ob("R08.4", "rtosc_bundle:magic-written", lits == [MAGIC], site=A.where(fn), detail={"literal": lits},
            what="rtosc_bundle writes magic %r, expected %r" % (lits, MAGIC))
@@ -171,24 +201,35 @@ def run(ctx):
     # ---- R08.5
     fn = u.function("rtosc_bundle")
     bufp = params[0]["id"]
+    # the write cursor: the buffer parameter itself or a local char pointer started at it, whichever is advanced
+    cursors = {bufp}
+    for d in A.walk(u.body(fn)):
+        if d.get("kind") == "VarDecl" and "*" in A.stype(d) and A.kids(d) and C.refs(A.kids(d)[-1]) == {bufp}:
+            cursors.add(d["id"])
+    advanced = {C.var_id(A.kids(x)[0]) for x in A.walk(u.body(fn)) if x.get("kind") == "CompoundAssignOperator" and x.get("opcode") == "+="} & cursors
+    ctx.require(len(advanced) == 1, "R08.5: rtosc_bundle: write cursor not identified (%d candidates)" % len(advanced))
+    cur_id = advanced.pop()
     off = 0
     seen = {}
     for s in A.kids(u.body(fn)):
         e = A.strip(s)
-        if e.get("kind") == "CompoundAssignOperator" and e.get("opcode") == "+=" and C.var_id(A.kids(e)[0]) == bufp:
-            v = A.int_literal(A.kids(e)[1])
+        if e.get("kind") == "CompoundAssignOperator" and e.get("opcode") == "+=" and C.var_id(A.kids(e)[0]) == cur_id:
+            v = _const_value(u, A.kids(e)[1])
             if v is None:
                 break
             off += v
             continue
         for c in A.calls_in(s):
             n = A.callee_name(c)
-            if n in ("strcpy", "emplace_uint64") and C.refs(A.kids(c)[1]) == {bufp}:
-                seen[n] = off
-        if s.get("kind") == "ForStmt" and any(C.var_id(A.kids(x)[0]) == bufp for x in A.walk(s) if x.get("kind") == "CompoundAssignOperator"):
+            if n in ("strcpy", "memcpy", "strncpy") and C.refs(A.kids(c)[1]) == {cur_id} and _string_source(u, A.kids(c)[2]) is not None:
+                seen["magic"] = off
+            if n == "emplace_uint64" and C.refs(A.kids(c)[1]) == {cur_id}:
+                seen["emplace_uint64"] = off
+        if s.get("kind") == "ForStmt" and any(C.var_id(A.kids(x)[0]) == cur_id for x in A.walk(s) if x.get("kind") == "CompoundAssignOperator"):
             seen["elements"] = off
             break
-    ctx.ob("R08.5", "rtosc_bundle:offsets", seen == {"strcpy": 0, "emplace_uint64": 8, "elements": 16}, site=A.where(fn), detail=seen,
+    ctx.require(set(seen) == {"magic", "emplace_uint64", "elements"}, "R08.5: rtosc_bundle: header writes not recognised (%s)" % sorted(seen))
+    ctx.ob("R08.5", "rtosc_bundle:offsets", seen == {"magic": 0, "emplace_uint64": 8, "elements": 16}, site=A.where(fn), detail=seen,
            what="rtosc_bundle lays out magic/time tag/elements at %s, expected 0/8/16" % seen)
     for q in ("rtosc_bundle_elements", "rtosc_bundle_fetch", "rtosc_bundle_size"):
         fn = u.function(q)
